@@ -47,6 +47,8 @@ def _unwrap_check_and_cast(method):
 
         def _check_x(x):
             x = arraylike_to_array(x)
+            if not jnp.issubdtype(x.dtype, jnp.inexact):
+                x = x.astype(float)  # integer input: in-place updates (x.at[i].set) would truncate
             if x.shape != bijection.shape:
                 raise ValueError(
                     f"Expected input shape {bijection.shape}; got {x.shape}"
